@@ -89,6 +89,9 @@ func (e *Engine) encodeFunction(name string) (fe *FuncEnc, err error) {
 		fe.inputs = append(fe.inputs, ModelInput{Name: p.Name(), Sym: t.S, Sort: s, Type: types.TypeString(p.Type(), nil)})
 	}
 	e.aliasRecv(fn, f.params, f.ptypes)
+	if fe.con != nil {
+		fe.loopOrd(fn, fe.con, 1) // settles the loop matching (and the orphan clauses) before anything is inlined
+	}
 	// cell invariants hold for every object at all times: assume them for the fields of pointer parameters at entry
 	for _, p := range fn.Params {
 		n, stt, ok := fe.structOfPointer(p.Type())
